@@ -525,6 +525,19 @@ def make_keys(seed, profile):
         return st
     steps = []
     mode = rnd.choice(['same', 'next', 'next', 'both'])
+    if kind == 'bf' and rnd.random() < 0.12:
+        # relative spellings under a changing working directory: the same string names different files
+        a, b = ['x'], ['d', 'x']
+
+        def rel(p, f):
+            return {'s': 'bf', 'p': p, 'f': f, 'catch': True, 'cmp': 'HASH', 'spell': 'rel', 'args': [1]}
+        steps = [{'op': 'ext', 'do': 'mkdir', 'p': ['d']}, {'op': 'chdir', 'p': []},
+                 {'op': 'build', 'name': 'B', 'vers': {}, 'root': [rel(a, 'f0a'), {'s': 'return'}]},
+                 {'op': 'chdir', 'p': ['d']},
+                 {'op': 'build', 'name': 'B', 'vers': {}, 'root': [rel(b, 'f0a'), rel(a, 'f0a'), {'s': 'return'}]},
+                 {'op': 'chdir', 'p': []},
+                 {'op': 'build', 'name': 'B', 'vers': {}, 'root': [rel(a, 'f0a'), rel(b, 'f0a'), {'s': 'return'}]}]
+        return {'id': '%s-%d' % (profile, seed), 'cache': ['k'], 'universe': UNIVERSE, 'prog': prog, 'steps': steps}
     if mode == 'same':
         steps.append({'op': 'build', 'name': 'B', 'vers': {}, 'root': [call(c1, f1), call(c2, f2, rnd.choice(SPELLS)),
                                                                       {'s': 'return'}]})
@@ -1034,6 +1047,29 @@ def make_faultretry(seed, profile):
     the failed call is retried, with the same function or with the one of the previous build (so that the old
     record is reused after all), inside or outside a subbuild; the build then commits or fails."""
     rnd = random.Random('faultretry:%s' % seed)
+    if rnd.random() < 0.2:
+        # a re-executed function asks for a recorded call that is still valid; serving it (creating directories, moving
+        # files aside) is where the fault strikes; the function catches the error; later builds ask for the pieces
+        Y = rnd.choice([['u', 'v', 'q'], ['n', 'q'], ['d', 'e', 'q']])
+        prog = {'fA': [{'s': 'write', 'c': 'c1', 'sz': 4}, {'s': 'return'}],
+                's2': [{'s': 'return'}],
+                'sS': [{'s': 'bf', 'p': Y, 'f': 'fA', 'args': [9], 'cmp': 'METADATA', 'catch': True},
+                       {'s': 'sb', 'f': 's2', 'args': [3], 'catch': True}, {'s': 'return'}],
+                'sP': [{'s': 'q', 'kind': 'read', 'p': ['inp'], 'cmp': 'HASH', 'td': False, 'how': 'binary'},
+                       {'s': 'sb', 'f': 'sS', 'args': [1], 'catch': True}, {'s': 'return'}]}
+        call_p = {'s': 'sb', 'f': 'sP', 'args': [0], 'catch': True}
+        pieces = [{'s': 'sb', 'f': 's2', 'args': [3], 'catch': True},
+                  {'s': 'bf', 'p': Y, 'f': 'fA', 'args': [9], 'cmp': 'METADATA', 'catch': True},
+                  {'s': 'sb', 'f': 'sS', 'args': [1], 'catch': True}]
+        rnd.shuffle(pieces)
+        steps = [{'op': 'ext', 'do': 'write', 'p': ['inp'], 'c': 'c9', 'sz': 4},
+                 {'op': 'build', 'name': 'B', 'vers': {}, 'root': [dict(call_p), {'s': 'return'}]},
+                 {'op': 'ext', 'do': 'write', 'p': ['inp'], 'c': 'c8', 'sz': 4},
+                 {'op': 'build', 'name': 'B', 'vers': {}, 'root': [dict(call_p), {'s': 'raise'} if rnd.random() < 0.2 else {'s': 'return'}]},
+                 {'op': 'build', 'name': 'B', 'vers': {}, 'root': [dict(call_p)] + pieces[:rnd.choice([1, 2, 3])] + [{'s': 'return'}]}]
+        if rnd.random() < 0.5:
+            steps.append({'op': 'clean', 'name': 'B'})
+        return {'id': '%s-%d' % (profile, seed), 'cache': ['k'], 'universe': UNIVERSE, 'prog': prog, 'steps': steps}
     targets = rnd.sample([['d', 'x'], ['d', 'e', 'z'], ['g', 'w'], ['x'], ['n', 'm', 'f']], rnd.choice([2, 3]))
     prog = {'fA': [{'s': 'write', 'c': 'c1', 'sz': 4}, {'s': 'return'}],
             'fB': [{'s': 'write', 'c': 'c2', 'sz': 6}, {'s': 'return'}],
